@@ -4,7 +4,7 @@
 (* relational specification PEdit!SetOk / UnsetOk; every history is a case.    *)
 EXTENDS PEdit, PUniverse, TLC, Json
 
-CONSTANTS MaxOps, EmitCases
+CONSTANTS MaxOps, EmitCases, WithMany
 VARIABLES msg0, msg, hist, lastOk
 vars == <<msg0, msg, hist, lastOk>>
 It(k, n, b) == [k |-> k, n |-> n, b |-> b]
@@ -12,7 +12,7 @@ AltP(v) == IF v.k = "bool" THEN PScal("bool", IF IsZero(v.b) THEN B8(1) ELSE B8(
            ELSE IF v.k \in {"string", "bytes"} THEN PScal(v.k, v.b \o <<122>>)
            ELSE IF v.k = "message" THEN (IF v.f = <<>> THEN PMsgV(<<PFld(1, "one", <<PPair(PNone, PScal("int32", B8(9)))>>)>>) ELSE PMsgV(<<>>))
            ELSE PScal(v.k, [v.b EXCEPT ![Len(v.b)] = (@ + 1) % 256])
-Op(k, p, s) == [op |-> k, path |-> p, sub |-> s]
+Op(k, p, s) == [op |-> k, path |-> p, sub |-> s, many |-> <<>>]
 FieldOps(f, pre) ==
   IF f.card = "one" THEN {Op("Set", Append(pre, It("id", f.num, <<>>)), AltP(f.e[1].v)), Op("Unset", Append(pre, It("id", f.num, <<>>)), PNone)}
   ELSE IF f.card = "rep" THEN
@@ -32,27 +32,21 @@ AbsentOps == {Op("Set", <<It("id", 3, <<>>)>>, PScal("int32", B8(5))), Op("Set",
 Ops == UNION {FieldOps(msg.f[i], <<>>) : i \in 1..Len(msg.f)}
        \cup UNION {IF msg.f[i].num = 17 THEN UNION {FieldOps(msg.f[i].e[1].v.f[j], <<It("id", 17, <<>>)>>) : j \in 1..Len(msg.f[i].e[1].v.f)} ELSE {} : i \in 1..Len(msg.f)}
        \cup {o \in AbsentOps : PLookup(msg, o.path).st = "notfound" \/ o.op = "Unset"}
-\* constructive successor
-Apply(m, o) ==
-  LET r == PLookup(m, o.path) IN
-  IF o.op = "Set" THEN
-     IF r.st = "found" THEN (IF SingularZero(o.path, o.sub) THEN LET s == Split(o.path) IN PutMsg(m, s.par, DelIn(MsgAt(m, s.par), s.rest)) ELSE PPutV(m, o.path, o.sub))
-     ELSE LET s == Split(o.path)  pm == MsgAt(m, s.par)  num == s.rest[1].n  i == FldIdx(pm.f, num) IN
-          IF PLookup(m, s.par).st # "found" THEN m
-          ELSE IF Len(s.rest) = 1 /\ IsZeroScalar(o.sub) THEN m
-          ELSE IF Len(s.rest) = 1 THEN PutMsg(m, s.par, [pm EXCEPT !.f = InsertField(pm.f, PFld(num, "one", <<PPair(PNone, o.sub)>>))])
-          ELSE IF s.rest[2].k = "idx" THEN
-               PutMsg(m, s.par, IF i = 0 THEN [pm EXCEPT !.f = InsertField(pm.f, PFld(num, "rep", <<PPair(PNone, o.sub)>>))]
-                                ELSE [pm EXCEPT !.f[i].e = Append(@, PPair(PNone, o.sub))])
-          ELSE LET kv == IF s.rest[2].k = "str" THEN PScal("string", s.rest[2].b)
-                         ELSE PScal(IF i = 0 THEN "int64" ELSE pm.f[i].e[1].k.k, s.rest[2].b)
-                   en == PPair(kv, o.sub) IN
-               PutMsg(m, s.par, IF i = 0 THEN [pm EXCEPT !.f = InsertField(pm.f, PFld(num, "map", <<en>>))]
-                                ELSE [pm EXCEPT !.f[i].e = InsertEntry(@, en)])
-  ELSE IF r.st = "found" THEN LET s == Split(o.path) IN PutMsg(m, s.par, DelIn(MsgAt(m, s.par), s.rest)) ELSE m
+Apply(m, o) == PApply(m, o)
+\* set-many on the root message: two Set operations addressing distinct root fields, applied at once
+RootSets == {o \in Ops : o.op = "Set" /\ Len(o.path) = 1}
+ManyOps == UNION {{[op |-> "SetMany", path |-> <<>>, sub |-> PNone, many |-> <<[it |-> a.path[1], sub |-> a.sub], [it |-> b.path[1], sub |-> b.sub]>>] :
+                      b \in {x \in RootSets : x.path[1].n > a.path[1].n}} : a \in RootSets}
 Init == msg0 \in RootMsgs(FALSE) /\ msg = msg0 /\ hist = <<>> /\ lastOk = TRUE
 Next == /\ Len(hist) < MaxOps
-        /\ \E o \in Ops : LET post == Apply(msg, o)  r == PLookup(msg, o.path) IN
+        /\ \E o \in Ops \cup (IF WithMany THEN ManyOps ELSE {}) :
+             IF o.op = "SetMany" THEN
+                \* the simultaneous set equals the sequential composition of its parts, in either order (distinct fields)
+                LET post == PApplyMany(msg, o.path, o.many) IN
+                /\ msg' = post /\ hist' = Append(hist, o)
+                /\ lastOk' = (post = PApplyMany(msg, o.path, <<o.many[2], o.many[1]>>) /\ SetManyOk(msg, o.path, o.many, post, FALSE).ok)
+             ELSE
+             LET post == Apply(msg, o)  r == PLookup(msg, o.path) IN
              /\ msg' = post /\ hist' = Append(hist, o)
              /\ lastOk' = LET innerAbsent == r.st # "found" /\ PLookup(msg, Split(o.path).par).st # "found" IN
                            IF o.op = "Set" THEN SetOk(msg, o.path, o.sub, post, r.st = "found", innerAbsent).ok ELSE UnsetOk(msg, o.path, post, FALSE).ok
